@@ -195,7 +195,7 @@ def make(i):
             log.append(("start", i, time.monotonic()))
         if i == K:
             os.kill(os.getpid(), signal.SIGINT)   # Ctrl-C while this call (and maybe others) is in flight
-        time.sleep(0.05)
+        time.sleep(0.1)
         with lock:
             log.append(("end", i, time.monotonic()))
         return i
@@ -234,9 +234,10 @@ def signal_conformance(tier):
 
     viols = []
     runs = 0
-    cases = [(12, 1, 2, "default"), (12, 4, 3, "default"), (12, 0, 1, "default"), (12, 5, 2, "random")]
+    # many more calls than can finish before the caller reacts, even on a loaded machine (0.1 s each)
+    cases = [(30, 1, 2, "default"), (30, 4, 3, "default"), (30, 0, 1, "default"), (30, 5, 2, "random")]
     if tier != "quick":
-        cases += [(15, k, W, sc) for k in (0, 2, 7) for W in (1, 2, 4) for sc in ("default", "random")]
+        cases += [(36, k, W, sc) for k in (0, 2, 7) for W in (1, 2, 4) for sc in ("default", "random")]
     procs = []
     env = dict(os.environ, PYTHONPATH=common.SRC)
     for c in cases:
